@@ -8,6 +8,7 @@ list empties.  Values needed concretely (list index, hash, str) are concretised
 by forking over *all* feasible values (each value is a log entry), never by
 silently picking one.
 """
+import fractions
 import numbers
 import time
 
@@ -334,17 +335,17 @@ class SymInt:
         ot = _t(o)
         if ot is None:
             if isinstance(o, float):
-                return f(EX.concretize(self.t), o)
+                if o != o or o in (float('inf'), float('-inf')):
+                    return f(0, o)              # any int compares with nan/inf like 0 does
+                return mkbool(f(z3.ToReal(self.t), z3.RealVal(str(fractions.Fraction(o)))))
             return NotImplemented
         return mkbool(f(self.t, ot))
 
     def __eq__(self, o):
-        r = self._cmp(o, lambda a, b: a == b)
-        return False if r is NotImplemented else r
+        return self._cmp(o, lambda a, b: a == b)      # NotImplemented for foreign types: Python tries the reflected method
 
     def __ne__(self, o):
-        r = self._cmp(o, lambda a, b: a != b)
-        return True if r is NotImplemented else r
+        return self._cmp(o, lambda a, b: a != b)
 
     def __lt__(self, o):
         return self._cmp(o, lambda a, b: a < b)
@@ -362,7 +363,13 @@ class SymInt:
     def _ar(self, o, f, nat):
         ot = _t(o)
         if ot is None:
-            if isinstance(o, (float, complex)):
+            if isinstance(o, SymReal):
+                return SymReal(f(z3.ToReal(self.t), o.t))
+            if isinstance(o, float) and o == o and o not in (float('inf'), float('-inf')):
+                return SymReal(f(z3.ToReal(self.t), _rv(o)))     # exact rational arithmetic (no IEEE rounding claimed)
+            if isinstance(o, float):
+                return nat(0, o)          # +/- with nan or an infinity: the result does not depend on the integer
+            if isinstance(o, complex):
                 return nat(EX.concretize(self.t), o)
             return NotImplemented
         return SymInt(f(self.t, ot))
@@ -450,6 +457,96 @@ class SymInt:
         return SymInt(-self.t - 1)
 
 
+def _rv(x):
+    return z3.RealVal(str(fractions.Fraction(x)))
+
+
+class SymReal:
+    """a real-valued term arising from int (op) float arithmetic; exact rationals, not IEEE doubles"""
+    __slots__ = ('t',)
+
+    def __init__(self, t):
+        self.t = t
+
+    @staticmethod
+    def _rt(o):
+        if isinstance(o, SymReal):
+            return o.t
+        if isinstance(o, SymInt):
+            return z3.ToReal(o.t)
+        if isinstance(o, bool):
+            return z3.RealVal(1 if o else 0)
+        if isinstance(o, int):
+            return z3.RealVal(o)
+        if isinstance(o, float) and o == o and o not in (float('inf'), float('-inf')):
+            return _rv(o)
+        return None
+
+    def _cmp(self, o, f):
+        ot = self._rt(o)
+        if ot is None:
+            if isinstance(o, float):
+                return f(0.0, o)
+            return NotImplemented
+        return mkbool(f(self.t, ot))
+
+    def __eq__(self, o):
+        return self._cmp(o, lambda a, b: a == b)
+
+    def __ne__(self, o):
+        return self._cmp(o, lambda a, b: a != b)
+
+    def __lt__(self, o):
+        return self._cmp(o, lambda a, b: a < b)
+
+    def __le__(self, o):
+        return self._cmp(o, lambda a, b: a <= b)
+
+    def __gt__(self, o):
+        return self._cmp(o, lambda a, b: a > b)
+
+    def __ge__(self, o):
+        return self._cmp(o, lambda a, b: a >= b)
+
+    def _ar(self, o, f):
+        ot = self._rt(o)
+        if ot is None:
+            if isinstance(o, float):
+                return f(0.0, o)      # nan/inf absorb any finite value
+            return NotImplemented
+        return SymReal(f(self.t, ot))
+
+    def __add__(self, o):
+        return self._ar(o, lambda a, b: a + b)
+
+    __radd__ = __add__
+
+    def __sub__(self, o):
+        return self._ar(o, lambda a, b: a - b)
+
+    def __rsub__(self, o):
+        return self._ar(o, lambda a, b: b - a)
+
+    def __neg__(self):
+        return SymReal(-self.t)
+
+    def __abs__(self):
+        return SymReal(z3.If(self.t >= 0, self.t, -self.t))
+
+    def __bool__(self):
+        return EX.decide(self.t != 0)
+
+    def __hash__(self):
+        raise Unsupported('hash of a symbolic real')
+
+    def __float__(self):
+        raise Unsupported('float() of a symbolic real')
+
+    def __repr__(self):
+        raise Unsupported('repr of a symbolic real')
+
+
+numbers.Real.register(SymReal)
 numbers.Integral.register(SymInt)
 
 _counter = [0]
